@@ -527,11 +527,65 @@ def m_fmt_arguments(I, st, fr, args, path, gargs, t):
     return Agg('fmtargs', None, (tmpl,) + tuple(fa))
 
 
+def fmt_template(tmpl):
+    """decode the template byte string of fmt::Arguments::new (encoding documented in core::fmt, nightly 1.97) into
+    parts ('lit', text) | ('arg', index, flags or None, width, precision) with width / precision = None | ('const', n) | ('arg', i);
+    a plain &str template (from_str) is one literal; None if not decodable"""
+    if isinstance(tmpl, SliceVal) and tmpl.tag.startswith('str:'):
+        return (('lit', tmpl.tag[4:]),)
+    if not (isinstance(tmpl, Opaque) and isinstance(tmpl.tag, tuple) and tmpl.tag[0] == 'bytes'):
+        return None
+    b = bytes(tmpl.tag[1])
+    parts = []
+    i = 0
+    nxt = 0
+    try:
+        while True:
+            n = b[i]
+            i += 1
+            if n == 0:
+                if i != len(b):
+                    return None
+                return tuple(parts)
+            if n < 0x80:
+                parts.append(('lit', b[i:i + n].decode('utf-8')))
+                i += n
+            elif n == 0x80:
+                ln = b[i] | (b[i + 1] << 8)
+                i += 2
+                parts.append(('lit', b[i:i + ln].decode('utf-8')))
+                i += ln
+            elif n & 0xC0 == 0xC0:
+                flags = width = prec = None
+                if n & 1:
+                    flags = int.from_bytes(b[i:i + 4], 'little')
+                    i += 4
+                if n & 2:
+                    w = b[i] | (b[i + 1] << 8)
+                    i += 2
+                    width = ('arg', w) if n & 16 else ('const', w)
+                if n & 4:
+                    pr = b[i] | (b[i + 1] << 8)
+                    i += 2
+                    prec = ('arg', pr) if n & 32 else ('const', pr)
+                if n & 8:
+                    idx = b[i] | (b[i + 1] << 8)
+                    i += 2
+                else:
+                    idx = nxt
+                nxt = idx + 1
+                parts.append(('arg', idx, flags, width, prec))
+            else:
+                return None
+    except (IndexError, UnicodeDecodeError):
+        return None
+
+
 @model(r'core::fmt::format')
 def m_fmt_format(I, st, fr, args, path, gargs, t):
     a = args[0]
     if isinstance(a, Agg) and a.kind == 'fmtargs':
-        return Agg('string', None, a.fields[1:])
+        return Agg('string', fmt_template(a.fields[0]), a.fields[1:])       # variant slot: the decoded template
     return Opaque('String', 'format')
 
 
@@ -551,7 +605,11 @@ def m_pad_integral(I, st, fr, args, path, gargs, t):
 
 @model(r"core::fmt::Formatter::<'a>::(write_fmt|write_str|pad|write_char|pad_formatted_parts)|<str as core::fmt::Display>::fmt|<.* as core::fmt::(Display|Debug)>::fmt")
 def m_fmt_write(I, st, fr, args, path, gargs, t):
-    st.note(('fmtwrite', path))
+    a = args[1] if len(args) > 1 else None
+    if isinstance(a, Agg) and a.kind == 'fmtargs':
+        st.note(('fmtwrite', path, Agg('string', fmt_template(a.fields[0]), a.fields[1:])))
+    else:
+        st.note(('fmtwrite', path))
     return Opaque('fmt::Result', path.rsplit('::', 1)[1])
 
 
